@@ -8,6 +8,7 @@
 package sif
 
 import (
+	"bytes"
 	"encoding/binary"
 	"errors"
 	"fmt"
@@ -18,6 +19,8 @@ import (
 var (
 	errInvalidMagic        = errors.New("invalid SIF magic")
 	errIncompatibleVersion = errors.New("incompatible SIF version")
+
+	errInvalidDescriptorCount = errors.New("invalid descriptor count")
 )
 
 // isValidSif looks at key fields from the global header to assess SIF validity.
@@ -62,14 +65,23 @@ func loadContainer(rw ReadWriter) (*FileImage, error) {
 		return nil, err
 	}
 
-	// Read descriptors.
-	f.rds = make([]rawDescriptor, f.h.DescriptorsTotal)
-	err = binary.Read(
-		io.NewSectionReader(rw, f.h.DescriptorsOffset, f.h.DescriptorsSize),
-		binary.LittleEndian,
-		&f.rds,
-	)
+	// Read descriptors. The counts in the header are not trusted: the descriptors must fit in the
+	// descriptor section, and memory is allocated only as descriptor data is actually read.
+	rdSize := int64(binary.Size(rawDescriptor{}))
+	if n := f.h.DescriptorsTotal; n < 0 || f.h.DescriptorsSize < 0 || n > f.h.DescriptorsSize/rdSize {
+		return nil, fmt.Errorf("reading descriptors: %w", errInvalidDescriptorCount)
+	}
+
+	b, err := io.ReadAll(io.NewSectionReader(rw, f.h.DescriptorsOffset, f.h.DescriptorsTotal*rdSize))
+	if err == nil && int64(len(b)) < f.h.DescriptorsTotal*rdSize {
+		err = io.ErrUnexpectedEOF
+	}
 	if err != nil {
+		return nil, fmt.Errorf("reading descriptors: %w", err)
+	}
+
+	f.rds = make([]rawDescriptor, f.h.DescriptorsTotal)
+	if err := binary.Read(bytes.NewReader(b), binary.LittleEndian, &f.rds); err != nil {
 		return nil, fmt.Errorf("reading descriptors: %w", err)
 	}
 
